@@ -1252,6 +1252,13 @@ func (c *Client) pollForUpdates() {
 		// update the data and notify of the change
 		c.mu.Lock()
 		idx := c.cacheData.Index
+		if data.Index < idx {
+			// A meta node that is behind (it just restarted and is still
+			// replaying its log) answered: never replace the cache with
+			// older metadata.
+			c.mu.Unlock()
+			continue
+		}
 		c.cacheData = data
 		c.updateAuthCache()
 		c.updateNodeID()
